@@ -741,6 +741,8 @@ class Env:
                     x = self.call(b.df, q)
                     x = x if isinstance(x, str) else fl(x)
                     d = dfq[q.excel_dt]
+                    if isinstance(x, str) and isinstance(d, str) and x == d:
+                        continue   # the base curve itself fails on this query (decided by the df oracles); same failure
                     if isinstance(x, str) or isinstance(d, str) or not close(x, d, rtol=1e-9, atol=0):
                         ctx.violation('bump(0.0).df differs from df', desc | {'query': self.dstr(q), 'df': d, 'bumped': x},
                                       finding=('C02/leap-time-axis' if touches_leap(v, pill[-1]) and isinstance(x, float) and isinstance(d, float)
